@@ -1,6 +1,6 @@
 import A2Verif.Lemmas.FsProdosPutK
 /-!
-# `put` of a file into the volume directory: the reading afterwards (files of at most 256 chunks)
+# `put` of a file into the volume directory: the reading afterwards
 
 `put_ok`: from a state between two calls, with a valid fresh name, a free slot in the volume directory and
 `blocks_needed ≤ free blocks`, `put` succeeds; after `get_img()` the state satisfies `SInv`, the reading is the old one with
@@ -44,10 +44,10 @@ theorem dirSlots_length_le (r : Raw) (key : Nat) : ∀ (ch : List Nat), (dirSlot
       split <;> simp
     omega
 
-/-- **`put(fimg)` succeeds and refines the abstract `put`** (file of the volume directory, at most 256 chunk positions) -/
+/-- **`put(fimg)` succeeds and refines the abstract `put`** (file of the volume directory: seedling, sapling or tree, holes included) -/
 theorem put_ok {d : Disk} (hs : SInv d) (v : Vol) (fsL : List LRec) (ch : List Nat)
     (hr : Read.ProdosT.read d.raw = .ok v) (ht : readTree d.raw (hdrTotal d.raw) = .ok (fsL, ch))
-    (f : FImg) (time nm : Bytes) (pk : PutOk f time) (h256 : f.end_ ≤ 256)
+    (f : FImg) (time nm : Bytes) (pk : PutOk f time)
     (hnodes : normalizePath (volName (hdrOf d.raw)) f.fullPath = .ok [volName (hdrOf d.raw), nm]) (hnm : nm ≠ [])
     (hv : isNameValid nm = true)
     (hnone : (dirSlots d.raw 2 ch).find? (isHit allTypes nm) = none)
@@ -117,12 +117,14 @@ theorem put_ok {d : Disk} (hs : SInv d) (v : Vol) (fsL : List LRec) (ch : List N
     omega
   -- a free block exists
   have hbn1 : 1 ≤ blocksNeeded f := by
-    rw [blocksNeeded_small f pk.keys h256]
+    rw [blocksNeeded_eq f pk.keys]
     have h1 := pk.end_pos
     by_cases he : f.end_ = 1
     · have : dataCount f 1 = 1 := by rw [dataCount_succ, dataCount_zero, pk.first he]; rfl
-      rw [he, this]; omega
-    · rw [if_pos (by omega)]; omega
+      rw [he, allocCount_small f 1 (by omega), this]; omega
+    · have := allocCount_mono f (show 2 ≤ f.end_ by omega)
+      rw [allocCount_small f 2 (by omega), if_pos (by omega)] at this
+      omega
   have hfitF : blocksNeeded f ≤ (freeBlocks (effBuf d (hdrBm d.raw) (nbmOf (hdrTotal d.raw))) d.total).length := by
     unfold freeBlocks; rw [← hfreeU]; exact hfit
   obtain ⟨nb, hfind⟩ : ∃ nb, (List.range d.total).find? (freeB (effBuf d (hdrBm d.raw) (nbmOf (hdrTotal d.raw)))) = some nb := by
@@ -140,7 +142,7 @@ theorem put_ok {d : Disk} (hs : SInv d) (v : Vol) (fsL : List LRec) (ch : List N
   obtain ⟨d2, e0, s, dc, Al, d3, hput, ctx, hraw2, hf2, ne, hres, ha, hBAl, n3⟩ :=
     put_trace c hs.src (by rw [← hts]; omega) htot16 hs.total (by rw [heff]; exact hbsz)
       (by rw [heff, hbsz, ← hts]; unfold nbmOf blockSize; omega) (by rw [heff]; exact hbok) hshape hfreeOrd hzero
-      f time nm pk h256 hnodes hnm hv hnone B k hB hk13 hkey hslot nb hfind hfitF hcount acc hacc hacc256
+      f time nm pk hnodes hnm hv hnone B k hB hk13 hkey hslot nb hfind hfitF hcount acc hacc hacc256
   have htot2 : d2.total = d.total := by
     have := ctx.totsz; rw [hraw2, setUnit_size, setUnit_size, ← hs.total] at this; exact this
   -- the blocks taken were free, hence ordinary blocks outside the directory and outside every file
@@ -156,8 +158,8 @@ theorem put_ok {d : Disk} (hs : SInv d) (v : Vol) (fsL : List LRec) (ch : List N
     rw [setUnit_self _ _ _ (by rw [setUnit_size, ← hsz]; exact (hchf B hB).1)]; rfl
   rw [hu2B] at n3
   -- the record
-  obtain ⟨g, st, fe, hst12, hrf, hgch, hgnd, hgown, hAllen, hkeyok⟩ :=
-    put_file_rec ctx pk h256 ne hres acc hacc256
+  obtain ⟨g, st, fe, hst12, hrf, hgch, hgnd, hgown, hAllen, hkeyok, hclean, hkeyAl⟩ :=
+    put_file_rec ctx pk ne hres acc hacc256
       (setUnit dc.raw B (patched (patched (if B = 2 then patched (unitAt d.raw 2) 37 (u16le (le16 (unitAt d.raw 2) 37 + 1))
         else unitAt d.raw B) (4 + k * 39) e0) (4 + k * 39) (Ent.setAccess (Ent.setEof s.entry f.eof) acc)))
       (fun j hj => setUnit_other _ _ _ _ (fun e => hBAl (e ▸ hj)))
@@ -171,11 +173,9 @@ theorem put_ok {d : Disk} (hs : SInv d) (v : Vol) (fsL : List LRec) (ch : List N
   have hst' : (Ent.setAccess (Ent.setEof s.entry f.eof) acc).getD 0 0 / 16 = 1 ∨
       (Ent.setAccess (Ent.setEof s.entry f.eof) acc).getD 0 0 / 16 = 2 ∨
       (Ent.setAccess (Ent.setEof s.entry f.eof) acc).getD 0 0 / 16 = 3 := by
-    rw [fe.st]; rcases hst12 with h | h
-    · exact Or.inl h
-    · exact Or.inr (Or.inl h)
+    rw [fe.st]; exact hst12
   have hact' : isAct (Ent.setAccess (Ent.setEof s.entry f.eof) acc, B, k + 1) = true := by
-    unfold isAct; simp only [ne_eq, decide_eq_true_eq]; rw [fe.st]; rcases hst12 with h | h <;> omega
+    unfold isAct; simp only [ne_eq, decide_eq_true_eq]; rw [fe.st]; rcases hst12 with h | h | h <;> omega
   have hRE3 := RE_file_of 69 _ (hdrTotal d.raw) [] 0 (Ent.setAccess (Ent.setEof s.entry f.eof) acc, B, k + 1) g hst' hkeyok hrf
   have hsr3 : slotRecs 69 (setUnit dc.raw B (patched (patched (if B = 2 then patched (unitAt d.raw 2) 37 (u16le (le16 (unitAt d.raw 2) 37 + 1))
         else unitAt d.raw B) (4 + k * 39) e0) (4 + k * 39) (Ent.setAccess (Ent.setEof s.entry f.eof) acc))) (hdrTotal d.raw) [] 0
@@ -257,9 +257,14 @@ theorem put_ok {d : Disk} (hs : SInv d) (v : Vol) (fsL : List LRec) (ch : List N
     · rcases List.mem_cons.mp a with rfl | a'
       · refine Or.inr ⟨hst', by rw [fe.access]; exact hua, ?_⟩
         intro h3'
-        simp only at h3'
+        simp only at h3' ⊢
         rw [fe.st] at h3'
-        rcases hst12 with h | h <;> omega
+        have hcl := hclean h3'
+        have hkb : le16 (Ent.setAccess (Ent.setEof s.entry f.eof) acc) 0x11 ∉ bmRange (hdrBm d.raw) (nbmOf (hdrTotal d.raw)) := by
+          intro hm
+          exact w4 _ (hsys_bm _ hm) (hAlfree _ hkeyAl)
+        rw [unitAt_congr (hsame4 _ hkb)]
+        exact hcl
       · exact hslotok4 y (List.mem_append_right _ a')
   have hlen3 : ∀ i ∈ bmRange (hdrBm d.raw) (nbmOf (hdrTotal d.raw)),
       (unitAt (setUnit dc.raw B (patched (patched (if B = 2 then patched (unitAt d.raw 2) 37 (u16le (le16 (unitAt d.raw 2) 37 + 1))
